@@ -886,6 +886,11 @@ class Interp:
                     return z3.If(v, z3.IntVal(1), z3.IntVal(0))
                 if z3.is_bv(v) and to in ('usize', 'u64', 'u32'):
                     return z3.BV2Int(v, False) if to != 'u32' else v
+                if z3.is_bv(v) and to in ('u8', 'u16'):
+                    # truncation; scalar bit-vectors stay 32 bits wide
+                    return v & z3.BitVecVal(0xFF if to == 'u8' else 0xFFFF, v.size())
+                if z3.is_bv(v) and to == 'char':
+                    return v
                 if z3.is_int(v) and to in ('usize', 'u64', 'isize', 'i64', 'u128'):
                     return v
                 raise Unsupported('IntToInt cast of symbolic value to ' + to)
@@ -976,12 +981,17 @@ class Interp:
         raise Unsupported('binop %s (symbolic=%s)' % (op, sym))
 
     def mbyte_cmp(self, op, x, y):
-        # a byte of a multi-byte character is >= 0x80; comparisons against ASCII constants are decided
+        """comparisons on bytes of multi-byte characters: decided structurally against ASCII constants (such a byte
+        is >= 0x80), otherwise on the UTF-8 byte value as a term of the code point"""
         if op in ('Eq', 'Ne'):
             other = y if isinstance(x, MByte) else x
             if isinstance(other, int) and other < 0x80:
                 return op == 'Ne'
-        raise Unsupported('comparison involving a multi-byte character byte')
+        xv = x.value() if isinstance(x, MByte) else x
+        yv = y.value() if isinstance(y, MByte) else y
+        if isinstance(xv, MByte) or isinstance(yv, MByte):
+            raise Unsupported('comparison involving a multi-byte character byte')
+        return self.binop(op, xv, yv, 'u8')
 
     # ---- f64
     def to_f(self, v):
